@@ -53,9 +53,11 @@ var (
 		repeatByte(0x22, 20),
 		append(repeatByte(0x22, 20), 0x01),
 		repeatByte(0x33, 20),
-		repeatByte(0x44, 20),
+		zeroByteAddr, // 20 bytes with 0x00 inside and at the end (key separators are 0x00)
 		repeatByte(0x22, 5),
 	}
+
+	zeroByteAddr = append(append([]byte{0x44, 0x00}, repeatByte(0x44, 17)...), 0x00)
 
 	strangerAddr = repeatByte(0x7f, 20) // never funded, never registered
 
